@@ -12,6 +12,7 @@ SPEC = dict(
             dict(name="c37_faithful", bounds="reference-encoded reply: id/flags/nscount/arcount/qtype/qclass/class/ttl fully symbolic; question name of 0..2 labels of 1..2 arbitrary octets; 0..1 record of type A/AAAA/PTR/CNAME with fully symbolic address octets; owner and PTR/CNAME target either spelled out (0..2 labels of 1 arbitrary octet), or a pointer to the question name, or label+pointer into the question name", reach=["rcode", "records", "norecords"], sample_every=197),
             dict(name="c37_query", bounds="hostname of 1..4 symbolic octets (non-empty labels, optional trailing dot), qid symbolic, EDNS off; rfc1035BuildAQuery, rfc3596BuildAQuery/AAAAQuery/HostQuery(PTR); and the reverse-lookup builders rfc1035BuildPTRQuery / rfc3596BuildPTRQuery4 for 10.b.0.b, rfc3596BuildPTRQuery6 for 2001:0:0:00b::b with 2 fully symbolic octets", reach=["plain"], sample_every=17),
             dict(name="c37_query_edns", bounds="as c37_query with hostname of 1..3 octets and EDNS on with any advertised size 1..65535 (OPT pseudo-record checked octet by octet); no native differential replay (the real packer calls memcpy(dst, nullptr, 0), which the UBSan build aborts on)", reach=["edns"], max_samples=0),
+            dict(name="c37_far_pointer", bounds="reference-encoded reply with 3 records: TXT-typed filler of 96..101 or 224..229 octets, a spelled-out 1-label owner (symbolic octet) with a symbolic A record at offset 127..132 / 255..260, and a PTR record whose owner is a pointer to that name and whose target is label + pointer to it (compression offsets with low octet >= 0x80 and with non-zero high bits)", reach=["records"], sample_every=5),
             dict(name="c37_known_root_pointer", known=True, bounds="KNOWN FINDING C37-root-pointer-trailing-dot only: the c37_faithful reference-encoded reply (1 record) restricted to messages in which the owner or the PTR/CNAME target is a label followed by a compression pointer to a root (empty) question name; strict assertion 'decoded name equals the encoded one'; its violations are listed in known_findings.json and printed as KNOWN-FINDING", reach=[], max_samples=0, sample_every=0),
         ],
         thorough=[
@@ -23,6 +24,7 @@ SPEC = dict(
             dict(name="c37_faithful2", bounds="as quick with 0..2 records, all labels 1 octet", reach=["rcode", "records", "norecords"], sample_every=3001),
             dict(name="c37_query", bounds="as quick, hostname of 1..6 octets", reach=["plain"]),
             dict(name="c37_query_edns", bounds="as quick, hostname of 1..5 octets", reach=["edns"], max_samples=0),
+            dict(name="c37_far_pointer", bounds="reference-encoded reply with 3 records: TXT-typed filler of 96..101 or 224..229 octets, a spelled-out 1-label owner (symbolic octet) with a symbolic A record at offset 127..132 / 255..260, and a PTR record whose owner is a pointer to that name and whose target is label + pointer to it (compression offsets with low octet >= 0x80 and with non-zero high bits)", reach=["records"], sample_every=5),
             dict(name="c37_known_root_pointer", known=True, bounds="KNOWN FINDING C37-root-pointer-trailing-dot only: the c37_faithful reference-encoded reply (1 record) restricted to messages in which the owner or the PTR/CNAME target is a label followed by a compression pointer to a root (empty) question name; strict assertion 'decoded name equals the encoded one'; its violations are listed in known_findings.json and printed as KNOWN-FINDING", reach=[], max_samples=0, sample_every=0),
         ]),
     timeout=dict(quick=170, thorough=900),
